@@ -1145,11 +1145,23 @@ func (a *txnAnalyzer) checkAppliedGuard(r *Result, s *txnSite) {
 	}
 	rb.inspectBody(func(n ast.Node) bool {
 		is, ok := n.(*ast.IfStmt)
-		if !ok || !rb.usesObj(is.Cond, flag) {
+		if !ok {
 			return true
 		}
+		// the test may be written as one condition (`flag && !applied`) or nested (`if flag { if !applied {`)
 		conj := splitOp(is.Cond, token.LAND)
-		if len(conj) < 2 {
+		usesFlag := rb.usesObj(is.Cond, flag)
+		if !usesFlag {
+			if outer, ok := pathConds(rb.Body, is); ok {
+				for _, oc := range outer {
+					if oc.Pos && rb.usesObj(oc.Expr, flag) && oc.If != nil && oc.If.Body.Pos() <= is.Pos() && is.End() <= oc.If.Body.End() {
+						usesFlag = true
+						conj = append(splitOp(oc.Expr, token.LAND), conj...)
+					}
+				}
+			}
+		}
+		if !usesFlag || len(conj) < 2 {
 			return true
 		}
 		key := s.key + " / T1g / the rollback tells an applied effect from a failed one by a record of the effect"
